@@ -794,12 +794,6 @@ func (c *Ctx) havoc(st *State, locs []ModLoc, ntop T) {
 				}
 			}
 			st.heap = nh
-			for k := range st.ghost {
-				if !exceptMatches(m.Except, "ghost:"+k) {
-					st.ghost[k] = c.sc.fresh("ghost", sInt)
-				}
-			}
-			st.ghostEpoch = st.epoch
 			continue
 		}
 		if m.Glob {
@@ -894,8 +888,18 @@ func (c *Ctx) frameObligations(name string, from, to *State, locs []ModLoc, reac
 			for _, k := range ks {
 				c.oblige("frame", name+":"+k, nil, reach, eq(c.heapGet(from, k, c.heapSort[k]), to.heap[k]), pos, k+" is excepted from `modifies everything` and must be unchanged")
 			}
-			for k, t := range to.ghost {
-				if exceptMatches(m.Except, "ghost:"+k) && c.ghostGet(from, k) != t {
+			gk := map[string]bool{}
+			for k := range to.ghost {
+				gk[k] = true
+			}
+			for _, k := range sortedStrKeys(gk) {
+				listed := false
+				for _, m2 := range locs {
+					if m2.Key == "ghost:"+k {
+						listed = true
+					}
+				}
+				if t := to.ghost[k]; !listed && c.ghostGet(from, k) != t {
 					c.oblige("frame", name+":ghost:"+k, nil, reach, eq(c.ghostGet(from, k), t), pos, "ghost counter "+k+" unchanged")
 				}
 			}
